@@ -18,14 +18,14 @@ tvars == <<ovars, l, failed>>
 CheckNames == <<"NeverAhead", "NoNegativeDelta", "Conservation", "IdleCycleSilent", "GaugeAuthentic", "GaugeFresh",
                 "GaugeCountBound", "ReacquireFresh", "CloseBarrier", "QuietAfterClose", "ReporterClosedOnce",
                 "ReporterClosedAfterFlush", "TimersSynchronousOnce", "NoCrash", "LoopEnded", "CloseErrorPropagated",
-                "InertAfterClose", "SameObject", "AllocateOnce", "KeepsOwnBounds">>
+                "InertAfterClose", "SameObject", "AllocateOnce", "KeepsOwnBounds", "ClosedParentInert">>
 CheckName(i) == CheckNames[i]
 Holds(i) == CASE i = 1 -> NeverAhead [] i = 2 -> NoNegativeDelta [] i = 3 -> Conservation [] i = 4 -> IdleCycleSilent
               [] i = 5 -> GaugeAuthentic [] i = 6 -> GaugeFresh [] i = 7 -> GaugeCountBound [] i = 8 -> ReacquireFresh
               [] i = 9 -> CloseBarrier [] i = 10 -> QuietAfterClose [] i = 11 -> ReporterClosedOnce
               [] i = 12 -> ReporterClosedAfterFlush [] i = 13 -> TimersSynchronousOnce [] i = 14 -> NoCrash
               [] i = 15 -> LoopEnded [] i = 16 -> CloseErrorPropagated [] i = 17 -> InertAfterClose
-              [] i = 18 -> SameObject [] i = 19 -> AllocateOnce [] i = 20 -> KeepsOwnBounds
+              [] i = 18 -> SameObject [] i = 19 -> AllocateOnce [] i = 20 -> KeepsOwnBounds [] i = 21 -> ClosedParentInert
 (* the invariants an event can break (each is a function of ghost state that only these events change) *)
 Relevant(r) ==
   CASE r.e = "dlv" /\ r.k = "counter" -> {1, 2, 4, 10}
@@ -33,7 +33,7 @@ Relevant(r) ==
     [] r.e = "dlv" /\ r.k = "timer"   -> {10, 13}
     [] r.e = "quiesce"  -> {3}
     [] r.e = "passe"    -> {6}
-    [] r.e = "subret"   -> {8, 17}
+    [] r.e = "subret"   -> {8, 17, 21}
     [] r.e = "rootcloseret" -> {9, 15, 16}
     [] r.e = "flush"    -> {10}
     [] r.e = "rclose"   -> {10, 11, 12}
@@ -60,7 +60,7 @@ Apply(r) ==
     [] r.e = "rclose"  -> ObsReporterClose
     [] r.e = "closecall" -> ObsCloseCall(r.o)
     [] r.e = "closeret" -> ObsCloseReturn(r.o)
-    [] r.e = "subcall" -> ObsSubCall(r.t)
+    [] r.e = "subcall" -> ObsSubCall(r.t, r.po)
     [] r.e = "subret"  -> ObsSubReturn(r.t, r.o, r.inert)
     [] r.e = "got"     -> ObsGot(r.k, r.id, r.so, r.obj)
     [] r.e = "alloc"   -> ObsAlloc(r.k, r.id, r.o)
